@@ -248,6 +248,33 @@ class RefHist:
         self.ref[("h", "u")] = "t1" if bound else None
         return out + self.frame(before, [(sp, 16)], "h.u = <UnionRef object>")
 
+    def copy_unionref_object(self, where):
+        """U(u): a stand-alone union reference copy-constructed from another one (bound to t1 / null)"""
+        I = self.I
+        out = []
+        A = self.ow.buf("A")
+        dest = A if where == "same" else self.ow.buf("B")
+        for bound in (True, False):
+            src = I.call(self.U, [self.h["t1"]] if bound else [], {"_buffer": A})
+            n0 = len(I.effects)
+            c = I.call(self.U, [src], {"_buffer": dest})
+            got = I.call(I.getattr(c, "get"), [], {})
+            if not bound:
+                if got is not None:
+                    out.append(f"U(<null U>, {where} buffer) is not null: {got!r}")
+                continue
+            if not (isinstance(got, Obj) and got.cls is self.T):
+                out.append(f"U(<U bound to t1>, {where} buffer) resolves to {got!r}")
+                continue
+            if got.attrs["_buffer"] is not dest:
+                out.append(f"U(<U bound to t1>, {where} buffer) denotes an object of buffer {got.attrs['_buffer'].name}")
+            if where == "same" and pol(got.attrs["_offset"]) != pol(self.h["t1"].attrs["_offset"]):
+                out.append("U(<U bound to t1>) in the same buffer does not denote t1 itself")
+            for fn, val in self.vals["t1"].items():
+                if I._eq(I.getattr(got, fn), val) is not True:
+                    out.append(f"U(<U bound to t1>, {where} buffer).{fn} reads {I.getattr(got, fn)!r}, t1.{fn} is {val!r}")
+        return out
+
     def update_from_holder(self):
         """whole-struct assignment from another holder of the same buffer: the references must denote the same objects
         as the source's (shared), re-encoded relative to the destination's own slots"""
@@ -371,6 +398,8 @@ OPS = {
     "union-bind-bound-unionref-object": lambda H: H.bind_unionref_object(True),
     "union-bind-null-unionref-object": lambda H: H.bind_unionref_object(False),
     "update-from-holder": lambda H: H.update_from_holder(),
+    "copy-unionref-same-buffer": lambda H: H.copy_unionref_object("same"),
+    "copy-unionref-other-buffer": lambda H: H.copy_unionref_object("other"),
     "union-item-bind": lambda H: H.bind("rau", 1, "tz"),
     "item-bind-existing": lambda H: H.bind("ra", 1, "t2"),
     "item-bind-value": lambda H: H.bind("ra", 2, "value"),
@@ -441,7 +470,7 @@ def rv(cx):
         m.func(q)
     maxlen = 3 if cx.tier == "thorough" else 2
     hs = [h for n in range(1, maxlen + 1) for h in itertools.product(list(OPS), repeat=n)]
-    focus = {"C09": ("copy-holder-same-buffer", "copy-holder-other-buffer", "copy-refarray-same-buffer", "copy-refarray-other-buffer", "copy-2d-refarray-same-buffer", "copy-2d-refarray-other-buffer", "update-from-holder")}.get(cx.prop)
+    focus = {"C09": ("copy-holder-same-buffer", "copy-holder-other-buffer", "copy-refarray-same-buffer", "copy-refarray-other-buffer", "copy-2d-refarray-same-buffer", "copy-2d-refarray-other-buffer", "update-from-holder", "copy-unionref-same-buffer", "copy-unionref-other-buffer")}.get(cx.prop)
     if focus and cx.tier != "thorough":
         hs = [h for h in hs if h[-1] in focus]
         cx.partial = True
